@@ -15,3 +15,11 @@ package js_lexer
 // octal escapes a value (and record them, to be rejected in strict code). tryToDecodeEscapeSequences is used for both,
 // told apart by reportErrors: the "this was a legacy octal escape" bookkeeping is reached only for string literals.
 //@ guarded legacy-octal-escapes-have-no-cooked-value-in-templates C01: func=(*Lexer).tryToDecodeEscapeSequences ; in=js_lexer ; site=store Lexer.LegacyOctalLoc ; scenario=tagged_template_invalid_escape_cooked ; require=true:reportErrors
+
+// C01 (string values survive): a decoded code point is stored as ONE UTF-16 code unit exactly when it is in the BMP
+// (<= 0xFFFF) and as a surrogate pair otherwise (ECMA-262 11.1.1 UTF16EncodeCodePoint). uint16(c) of anything larger
+// truncates, and U+FFFF sent down the pair branch becomes DBFF DFFF, a different string.
+//@ guarded single-unit-only-for-bmp C01: func=(*Lexer).tryToDecodeEscapeSequences ; in=js_lexer ; site=convert phi:c ; scenario=escape_uffff_roundtrip ; require-any=true:*c<=65535 || true:*c<65536
+//@ guarded surrogate-pair-only-beyond-bmp C01: func=(*Lexer).tryToDecodeEscapeSequences ; in=js_lexer ; site=convert 55296+* ; scenario=escape_uffff_roundtrip ; require-any=false:*c<=65535 || false:*c<65536 || true:*c>65535 || true:*c>=65536
+//@ guarded jsx-text-single-unit-only-for-bmp C01: func=decodeJSXEntities ; in=js_lexer ; site=convert phi:c ; scenario=escape_uffff_roundtrip ; require-any=true:*c<=65535 || true:*c<65536
+//@ guarded jsx-text-surrogate-pair-only-beyond-bmp C01: func=decodeJSXEntities ; in=js_lexer ; site=convert 55296+* ; scenario=escape_uffff_roundtrip ; require-any=false:*c<=65535 || false:*c<65536 || true:*c>65535 || true:*c>=65536
